@@ -120,7 +120,7 @@ pub fn run(r: &mut Report) {
     let mut rng = Rng::new(r.seed ^ 0xC16);
     let seeds = boundary_seeds(&mut rng);
     let tids = boundary_tids(&mut rng);
-    let n_round = if r.quick() { 30_000 } else { 1_000_000 };
+    let n_round = if r.quick() { 100_000 } else { 1_000_000 };
     let n_malformed_per = if r.quick() { 6 } else { 12 };
     let max_len = if r.quick() { 1500 } else { 5000 };
     let mut nontrivial = 0u64;
